@@ -127,6 +127,14 @@ def run(rep, tier):
     # of that name must be captured outside it, or the class is matched with the input / offset as its argument
     from . import shared
     shared.entry_closure_rule(rep)
+    # the first slot of what a rule yields last is True or False - never a value the driver could take for the
+    # request tag: register protocol of every expression class (E1 rule G3)
+    from .. import e1run
+    rep.rule('G3-protocol', 'every exit of every expression leaves _status True or False (never an arbitrary value that '
+                            'could equal the CALL tag) and a failure exit carries an error function')
+    e1run.run(rep, ['Where', 'Apply', 'Expect', 'ExpectNot', 'Opt', 'Seq', 'Choice', 'Str', 'Regex', 'Byte', 'Let', 'List',
+                    'Sep', 'Discard', 'Skip', 'Longest', 'OperatorTable', 'Ref'], 'quick',
+              select=lambda f: f['rule'] == 'G3-protocol')
     rep.count('finalize/driver obligations', n)
     rep.floor('runtime copies analysed', rep.instances.get('runtime copies analysed', 0), 3)
     from .. import controls
